@@ -95,20 +95,20 @@ impl SyncOp {
                 Update {
                     uuid: uuid1,
                     property: property1,
-                    value: value1,
                     timestamp: timestamp1,
+                    ..
                 },
                 Update {
                     uuid: uuid2,
                     property: property2,
-                    value: value2,
                     timestamp: timestamp2,
+                    ..
                 },
             ) if uuid1 == uuid2 && property1 == property2 => {
-                // if the value is the same, there's no conflict
-                if value1 == value2 {
-                    (None, None)
-                } else if timestamp1 < timestamp2 {
+                // Updates that set the same value are ordered by timestamp like any others: the
+                // one that survives carries the later timestamp, which later comparisons with
+                // other updates of this property depend on.
+                if timestamp1 < timestamp2 {
                     // prefer the later modification
                     (None, Some(operation2))
                 } else {
